@@ -99,7 +99,19 @@ func init() {
 		},
 		DriverOp: "applyInclude",
 		Judge:    judgeModel,
-		Timeout:  20 * time.Second,
+		Timeout:  60 * time.Second,
+	})
+	core.Register("c06.applySource", &core.CheckDef{
+		Real: func(raw json.RawMessage) any {
+			var a c06lib.ApplyArgs
+			if err := json.Unmarshal(raw, &a); err != nil {
+				return map[string]any{"bad": err.Error()}
+			}
+			return c06lib.RealApply(a)
+		},
+		DriverOp: "applyInclude",
+		Judge:    judgeSource,
+		Timeout:  60 * time.Second,
 	})
 	core.Register("c06.paste", &core.CheckDef{
 		Real: func(raw json.RawMessage) any {
@@ -110,7 +122,7 @@ func init() {
 			return c06lib.RealPaste(a)
 		},
 		Judge:   judgePaste,
-		Timeout: 20 * time.Second,
+		Timeout: 60 * time.Second,
 	})
 	core.RegisterProp("C06", runC06)
 }
@@ -148,6 +160,34 @@ func judgeModel(args, real, drv json.RawMessage) *core.Verdict {
 		}
 	default:
 		return core.Disagree(fmt.Sprintf("outcome classes differ: real %s, model %s", core.Class(real), core.Class(drv)))
+	}
+	return nil
+}
+
+// judgeSource: an included file loaded without validation hands a section of any node kind to importResources.
+// Only include.go is judged here: a crash in another stage of the unvalidated pipeline is C01's business.
+func judgeSource(args, real, drv json.RawMessage) *core.Verdict {
+	var r, d map[string]json.RawMessage
+	json.Unmarshal(real, &r)
+	json.Unmarshal(drv, &d)
+	if p, isPanic := r["panic"]; isPanic {
+		if strings.Contains(string(p), "loader.importResource") || strings.Contains(string(p), "loader.ApplyInclude") {
+			return core.CrashVerdict(real)
+		}
+		return core.Skip("crash outside include.go")
+	}
+	if v := core.CrashVerdict(real); v != nil {
+		return v
+	}
+	modelNotMapping := string(d["err"]) == `"notMapping"`
+	realNotMapping := string(r["err"]) == `"notMapping"`
+	switch {
+	case modelNotMapping && r["err"] == nil:
+		return core.Disagree("model: non-mapping source section is an error; real code accepts it")
+	case realNotMapping && !modelNotMapping:
+		return core.Disagree("real code rejects a source section the model imports")
+	case r["ok"] != nil && d["ok"] != nil && !core.CanonEqual(r["ok"], d["ok"]):
+		return core.Skip("the unvalidated pipeline reshapes the section")
 	}
 	return nil
 }
@@ -346,7 +386,7 @@ func (g *gen) project(file, projDir string, depth int, chain []string, wdAbs boo
 			case g.r.Intn(3) == 0:
 				entry["project_directory"] = c06lib.Root + "/" + pd
 				g.tag("project_directory-abs")
-			case wdAbs || !g.clean:
+			case true: // also inside included files since fix f077fe2
 				// relative to the including project's directory
 				entry["project_directory"] = c06lib.RelTo(projDir, pd)
 				g.tag("project_directory-rel")
@@ -371,7 +411,7 @@ func (g *gen) project(file, projDir string, depth int, chain []string, wdAbs boo
 				switch {
 				case g.r.Intn(3) == 0:
 					efs = append(efs, c06lib.Root+"/"+f)
-				case wdAbs || !g.clean:
+				case true: // also inside included files since fix f077fe2
 					efs = append(efs, c06lib.RelTo(projDir, f))
 					if !wdAbs {
 						g.tag("nested-relative-env_file")
@@ -504,7 +544,9 @@ func runC06(ctx *core.Ctx) {
 	for i := 0; i < ctx.Pick(2000, 20000); i++ {
 		ctx.Add("c06.applyInclude", randomApply(ctx, 1+ctx.Rng.Intn(3)))
 	}
+	streamApplyDiamonds(ctx)
 	streamApplyMalformed(ctx)
+	streamApplySourceKinds(ctx)
 	streamPaste(ctx)
 }
 
@@ -631,13 +673,9 @@ func streamImport(ctx *core.Ctx) {
 	}
 }
 
-// srcSection: the source of importResources is a validated model, so its sections are mappings or null
-func srcSection(v any) any {
-	if m, ok := v.(map[string]any); ok {
-		return m
-	}
-	return map[string]any{"x": v}
-}
+// srcSection: a validated included model has mappings or null here; with SkipValidation any kind can arrive
+// (then the import is an error, not a panic — fix 53f12a7), so every kind is sent as it is
+func srcSection(v any) any { return v }
 
 // streamApplyExhaustive enumerates the syntax × file-system situations of one include entry on a fixed small tree.
 func streamApplyExhaustive(ctx *core.Ctx) {
@@ -700,6 +738,62 @@ func streamApplyExhaustive(ctx *core.Ctx) {
 					}
 				}
 			}
+		}
+	}
+}
+
+// streamApplySourceKinds: with SkipValidation an included file can carry a resource section of any node kind
+// (exhaustive: 4 sections × 10 kinds × 2 renderings; a non-mapping `services` is already rejected by ApplyExtends);
+// importResource must answer with an error, never a panic.
+func streamApplySourceKinds(ctx *core.Ctx) {
+	for _, kind := range c06lib.Kinds5[1:] {
+		for _, k := range core.Kinds {
+			for style := 0; style < 2; style++ {
+				s := c06lib.NewScen()
+				inc := map[string]any{"services": map[string]any{"b": map[string]any{"image": "b"}}}
+				inc[kind] = core.KindValue(k, ctx.Rng)
+				s.AddYAML("sub/inc.yaml", style, inc)
+				model := map[string]any{"include": []any{"sub/inc.yaml"}, "services": map[string]any{"a": map[string]any{"image": "a"}}}
+				ctx.Add("c06.applySource", c06lib.ApplyArgs{Files: s.Files, Docs: s.Docs, Envs: s.Envs, WD: c06lib.Root, LWD: c06lib.Root, Env: map[string]string{},
+					Model: core.EncodeVal(model), Chain: []string{c06lib.Root + "/compose.yaml"}, SkipValidation: true})
+				ctx.Count("apply:source-section-kind=" + k)
+			}
+		}
+	}
+}
+
+// streamApplyDiamonds: one file reached through two include routes whose relative paths are spelled differently
+// (absolute project_directory on one route; a route through a sibling directory); sameResource must accept them,
+// and still reject a shared name whose definitions really differ.
+func streamApplyDiamonds(ctx *core.Ctx) {
+	shared := map[string]any{"services": map[string]any{"r": map[string]any{"image": "r-${V:-u}", "build": map[string]any{"context": "./ctx"},
+		"volumes": []any{map[string]any{"type": "bind", "source": "f.txt", "target": "/t"}}, "label_file": []any{"l.txt"}}},
+		"secrets": map[string]any{"s": map[string]any{"file": "./s.txt"}}, "configs": map[string]any{"c": map[string]any{"file": "c.txt"}}}
+	for style := 0; style < 2; style++ {
+		for variant := 0; variant < 4; variant++ {
+			s := c06lib.NewScen()
+			s.AddYAML("shared/d.yaml", style, shared)
+			s.AddYAML("a/inc.yaml", style, map[string]any{"include": []any{"../shared/d.yaml"}, "services": map[string]any{"sa": map[string]any{"image": "x"}}})
+			s.AddYAML("b/inc.yaml", style, map[string]any{"include": []any{"../shared/d.yaml"}, "services": map[string]any{"sb": map[string]any{"image": "y"}}})
+			s.AddYAML("c/inc.yaml", style, map[string]any{"include": []any{c06lib.Root + "/a/inc.yaml"}, "services": map[string]any{"sc": map[string]any{"image": "z"}}})
+			var inc []any
+			env := map[string]string{}
+			switch variant {
+			case 0: // absolute project_directory on one route
+				inc = []any{map[string]any{"path": "a/inc.yaml", "project_directory": c06lib.Root + "/a"}, "b/inc.yaml"}
+			case 1: // the second route passes through another directory with an absolute path
+				inc = []any{"a/inc.yaml", "c/inc.yaml"}
+			case 2: // plain diamond
+				inc = []any{"a/inc.yaml", "b/inc.yaml"}
+			case 3: // the routes see different environments: the definitions really differ
+				s.AddEnv("b/.env", [][]string{{"V", "from-b"}})
+				s.AddEnv("shared/.env", [][]string{{"V", "from-shared"}})
+				inc = []any{"a/inc.yaml", map[string]any{"path": "../shared/d.yaml", "project_directory": "b"}}
+			}
+			model := map[string]any{"include": inc, "services": map[string]any{"m": map[string]any{"image": "m"}}}
+			ctx.Add("c06.applyInclude", c06lib.ApplyArgs{Files: s.Files, Dirs: s.Dirs, Docs: s.Docs, Envs: s.Envs, WD: c06lib.Root, LWD: c06lib.Root, Env: env,
+				Model: core.EncodeVal(model), Chain: []string{c06lib.Root + "/compose.yaml"}})
+			ctx.Count(fmt.Sprintf("apply:diamond-variant%d", variant))
 		}
 	}
 }
@@ -797,7 +891,6 @@ func streamPaste(ctx *core.Ctx) {
 		}
 		class := "partition"
 		if g.tags["diamond"] {
-			// the two routes may compare half-resolved paths (findings/C06.txt)
 			class = "diamond"
 		}
 		ctx.Add("c06.paste", pasteArgs(g, main, entries, c06Envs[ctx.Rng.Intn(len(c06Envs))], "paste", class))
